@@ -16,7 +16,7 @@ func TestMain(m *testing.M) { pbt.RunMain(m) }
 var profile = txm.Profile{
 	Name:       "c06",
 	OpKinds:    []string{"begin", "set", "set", "set", "set", "del", "del", "commit", "commit", "commit", "iter", "iter", "iter", "iter", "maint", "maint", "discard"},
-	MaintKinds: []string{"rotate", "rotate", "compact", "compact", "once"},
+	MaintKinds: []string{"rotate", "rotate", "drain", "drain", "drain", "once"},
 	ValueSizes: []int{0, 1, 8, 33, 100, 9000},
 	MaxOps:     70,
 	MaxKeys:    8,
